@@ -9,19 +9,128 @@ use lrpar::NonStreamingLexer;
 
 const ALPHA: &[char] = &['a', 'b', ' ', '\n', '\n', '\r', '\u{e9}', '\u{2764}', '\u{1F600}'];
 const SMALL: &[char] = &['a', '\n', '\r', '\u{e9}'];
+/// sequences whose width is not the sum of the widths of their characters: emoji presentation and
+/// ZWJ sequences, a flag, the Lam-Alef ligature, a Lisu tone pair, a combining accent (additive: control)
+const WIDE_SEQ: &[&str] = &["\u{2764}\u{FE0F}", "\u{1F468}\u{200D}\u{1F469}", "\u{1F1E9}\u{1F1EA}", "\u{644}\u{627}", "\u{A4F8}\u{A4FC}", "a\u{301}", "\u{1F44D}\u{1F3FD}", "\u{23}\u{FE0F}\u{20E3}"];
+/// wide (2 cells), zero-width (combining acute, ZWJ, VS16), a heart that VS16 widens, emoji, a tab
+const WIDE: &[char] = &['a', ' ', '\n', '\n', '\r', '\u{6F22}', '\u{301}', '\u{2764}', '\u{FE0F}', '\u{1F600}', '\u{200D}', '\u{1F468}', '\t', '\u{FF21}'];
 
-fn payload(text: &[char], chunks: &[usize]) -> String {
+fn payload(text: &[char], chunks: &[usize], spans: &[(usize, usize, usize)]) -> String {
     let cps: Vec<u32> = text.iter().map(|c| *c as u32).collect();
-    format!("{} {}", plist(&cps), plist(chunks))
+    let (cw, ex) = widths(text);
+    let flat: Vec<usize> = spans.iter().flat_map(|(a, b, p)| [*a, *b, *p]).collect();
+    format!("{} {} {} {} {}", plist(&cps), plist(chunks), plist(&cw), plist(&ex), plist(&flat))
 }
 
-fn parse_payload(p: &str) -> Option<(Vec<char>, Vec<usize>)> {
+/// The width parameter of the Lean model, measured on the `unicode-width` crate that lrpar links
+/// (`UnicodeWidthStr::width`, the only function diagnostics.rs calls): the width of every distinct
+/// character as a one-character string (`cp w …`), and every newline-free substring of the text whose
+/// width is NOT the sum of those (`k cp… w …`; emoji sequences, ligatures).
+fn widths(text: &[char]) -> (Vec<u32>, Vec<u32>) {
+    use unicode_width::UnicodeWidthStr;
+    let mut seen: Vec<char> = Vec::new();
+    let mut cw: Vec<u32> = Vec::new();
+    let w1 = |c: char| UnicodeWidthStr::width(c.to_string().as_str()) as u32;
+    for c in text {
+        if !seen.contains(c) {
+            seen.push(*c);
+            cw.push(*c as u32);
+            cw.push(w1(*c));
+        }
+    }
+    let mut ex: Vec<u32> = Vec::new();
+    let mut done: std::collections::HashSet<Vec<char>> = std::collections::HashSet::new();
+    for i in 0..text.len() {
+        let mut sub: Vec<char> = Vec::new();
+        let mut sum = 0u32;
+        for c in &text[i..] {
+            if *c == '\n' || sub.len() >= 24 {
+                break;
+            }
+            sub.push(*c);
+            sum += w1(*c);
+            let st: String = sub.iter().collect();
+            let real = UnicodeWidthStr::width(st.as_str()) as u32;
+            if real != sum && done.insert(sub.clone()) {
+                ex.push(sub.len() as u32);
+                ex.extend(sub.iter().map(|c| *c as u32));
+                ex.push(real);
+            }
+        }
+    }
+    (cw, ex)
+}
+
+/// The spans (start, end, prefix length) sent to the pretty-printer, a function of the text alone:
+/// every boundary pair of a short text; for longer texts up to `cap` starting boundaries, each with
+/// spans of 0, 1, 2, 4, 9, 17 and 40 characters. Prefix "" mostly, "..." (what `format_spanned` passes)
+/// for a third, and once "...." (the formatter's `assert!`).
+fn pp_spans(text: &[char]) -> Vec<(usize, usize, usize)> {
+    let s: String = text.iter().collect();
+    let mut bounds: Vec<usize> = s.char_indices().map(|(i, _)| i).collect();
+    bounds.push(s.len());
+    let n = bounds.len();
+    let mut v: Vec<(usize, usize, usize)> = Vec::new();
+    if n <= 7 {
+        for i in 0..n {
+            for j in i..n {
+                v.push((bounds[i], bounds[j], if (i + 2 * j) % 3 == 1 { 3 } else { 0 }));
+            }
+        }
+        v.push((bounds[0], bounds[n - 1], 4));
+        v.push((bounds[n / 2], bounds[n - 1], 2));
+    } else {
+        let cap = 24;
+        let stride = (n + cap - 1) / cap;
+        let mut k = 0usize;
+        for i in (0..n).step_by(stride.max(1)) {
+            for step in [0usize, 1, 2, 4, 9, 17, 40] {
+                let j = (i + step).min(n - 1);
+                if step > 0 && i + step > n - 1 + 8 {
+                    continue;
+                }
+                k += 1;
+                v.push((bounds[i], bounds[j], if k % 3 == 0 { 3 } else if k % 29 == 0 { 1 } else { 0 }));
+            }
+        }
+        v.push((bounds[0], bounds[n - 1], 0));
+        v.push((bounds[n - 1], bounds[n - 1], 3));
+        v.push((bounds[1], bounds[n - 2], 4));
+    }
+    v.dedup();
+    v
+}
+
+fn enc(r: &Result<String, String>) -> String {
+    match r {
+        Err(_) => "P".to_string(),
+        Ok(t) if t.is_empty() => "E".to_string(),
+        Ok(t) => t.chars().map(|c| (c as u32).to_string()).collect::<Vec<_>>().join("."),
+    }
+}
+
+fn parse_payload(p: &str) -> Option<(Vec<char>, Vec<usize>, Option<Vec<(usize, usize, usize)>>)> {
     let v: Vec<u64> = p.split_whitespace().map(|t| t.parse().ok()).collect::<Option<_>>()?;
     let n = *v.first()? as usize;
     let text: Vec<char> = v.get(1..1 + n)?.iter().map(|c| char::from_u32(*c as u32)).collect::<Option<_>>()?;
     let k = *v.get(1 + n)? as usize;
     let chunks: Vec<usize> = v.get(2 + n..2 + n + k)?.iter().map(|x| *x as usize).collect();
-    Some((text, chunks))
+    // optional: widths, width exceptions (both re-measured, not trusted), spans
+    let mut pos = 2 + n + k;
+    let mut spans = None;
+    let mut lists: Vec<Vec<u64>> = Vec::new();
+    while let Some(len) = v.get(pos) {
+        let len = *len as usize;
+        match v.get(pos + 1..pos + 1 + len) {
+            Some(l) => lists.push(l.to_vec()),
+            None => break,
+        }
+        pos += 1 + len;
+    }
+    if lists.len() >= 3 {
+        spans = Some(lists[2].chunks(3).filter(|c| c.len() == 3).map(|c| (c[0] as usize, c[1] as usize, c[2] as usize)).collect());
+    }
+    Some((text, chunks, spans))
 }
 
 /// lexer definitions over the alphabet of the generated texts: lexing succeeds / stops because no
@@ -35,7 +144,7 @@ const LEXERS: &[&str] = &[
 ];
 
 /// The implementation's answer in the driver's reply format, plus harness-side verdicts on the glue.
-fn answer(text: &[char], chunks: &[usize]) -> (String, Vec<String>) {
+fn answer(text: &[char], chunks: &[usize], spans: &[(usize, usize, usize)]) -> (String, Vec<String>) {
     let s: String = text.iter().collect();
     let mut fails = Vec::new();
     let mut nlc = NewlineCache::new();
@@ -268,13 +377,40 @@ fn answer(text: &[char], chunks: &[usize]) -> (String, Vec<String>) {
             }
         }
     }
-    (format!("ln {} lc {} sp {}", ln.join(" "), lc.join(" "), sp.join(" ")), fails)
+    // the pretty-printer on the spans of the request: header and underlined lines, exactly as printed
+    let mut pp = Vec::new();
+    {
+        use lrpar::diagnostics::SpannedDiagnosticFormatter;
+        let path = std::path::Path::new("src.y");
+        let fmt = SpannedDiagnosticFormatter::new(&s, path);
+        for &(b1, b2, plen) in spans {
+            let prefix = ".".repeat(plen);
+            let h = guarded(std::panic::AssertUnwindSafe(|| fmt.file_location_msg("msg", Some(Span::new(b1, b2)))));
+            let b = guarded(std::panic::AssertUnwindSafe(|| fmt.prefixed_underline_span_with_text(&prefix, Span::new(b1, b2), "msg".to_string(), '^')));
+            if plen == 0 {
+                // `underline_span_with_text` is the same function with an empty prefix
+                let u = guarded(std::panic::AssertUnwindSafe(|| fmt.underline_span_with_text(Span::new(b1, b2), "msg".to_string(), '^')));
+                if u.as_ref().ok() != b.as_ref().ok() {
+                    fails.push(format!("underline_span_with_text({},{}) = {:?} but prefixed_underline_span_with_text(\"\") = {:?}", b1, b2, u, b));
+                }
+            }
+            pp.push(format!("{};{}", enc(&h), enc(&b)));
+        }
+    }
+    let pps = if spans.is_empty() { String::new() } else { format!(" pp {}", pp.join(" ")) };
+    (format!("ln {} lc {} sp {}{}", ln.join(" "), lc.join(" "), sp.join(" "), pps), fails)
 }
 
 fn emit(out: &mut Out, text: &[char], chunks: &[usize], kind: &str) {
+    emit_with(out, text, chunks, kind, None)
+}
+
+fn emit_with(out: &mut Out, text: &[char], chunks: &[usize], kind: &str, spans: Option<Vec<(usize, usize, usize)>>) {
     let id = out.id();
-    out.case("C19", id, &payload(text, chunks));
-    let (ans, fails) = answer(text, chunks);
+    let spans = spans.unwrap_or_else(|| pp_spans(text));
+    out.case("C19", id, &payload(text, chunks, &spans));
+    let (ans, fails) = answer(text, chunks, &spans);
+    out.add("pretty_printed_spans", spans.len() as u64);
     out.imp(id, "I", &ans);
     if fails.is_empty() {
         out.imp(id, "H", "ok");
@@ -325,15 +461,21 @@ pub fn run(a: &Args) {
                 continue;
             }
             let _ = it.next();
-            if let Some((text, chunks)) = it.next().and_then(parse_payload) {
-                emit(&mut out, &text, &chunks, "replay");
+            if let Some((text, chunks, spans)) = it.next().and_then(parse_payload) {
+                emit_with(&mut out, &text, &chunks, "replay", spans);
             }
         }
         out.finish(&a.out);
         return;
     }
     // corpus: minimised past failures and the tests' own examples
-    for t in ["ab\ncd\nef", "ab\n", "ab\ncd", "a b c\n", "\na\na a\na a a\na a a a", " a\n\u{2764} b", "a\r\nb", "\r\n\n", "", "\n", "\n\n"] {
+    for t in [
+        "ab\ncd\nef", "ab\n", "ab\ncd", "a b c\n", "\na\na a\na a a\na a a a", " a\n\u{2764} b", "a\r\nb", "\r\n\n", "", "\n", "\n\n",
+        // the pretty-printer: the crate's own tests, and the two defects repaired in this round (an empty
+        // span on an empty line printed nothing; a span from inside a CR LF pair panicked)
+        "\naaaaaabbb\nbbb\nbbbb\n", "\naaaaaabbb bbb bbbb\n", "\" \u{1F980}\u{1F980}\u{1F980} \n \u{1F980}\u{1F980}\u{1F980} \"",
+        "\n\u{1F980}\u{1F99E}\n\u{1F980}\n\u{1F980}\u{1F99E}", "%start A\n", "a\n\nb", "a\r\nb\r\n", "a\r\n\r\nb", "x\u{2764}\u{FE0F}y\nz",
+    ] {
         let text: Vec<char> = t.chars().collect();
         emit(&mut out, &text, &[text.len()], "corpus");
     }
@@ -398,6 +540,22 @@ pub fn run(a: &Args) {
         let n = text.len();
         let ch = random_chunks(&mut rng, n);
         emit(&mut out, &text, &ch, "plain_lines");
+    }
+    // texts with characters that are not one cell wide (wide, zero-width, emoji sequences whose width
+    // is not the sum of their characters' widths): the pretty-printer's indentation and underline
+    for case in 0..(if a.thorough { 600 } else { 60 }) {
+        let mut rng = Rng::for_case(a.seed, 19, 3_000_000 + case as u64);
+        let mut text: Vec<char> = Vec::new();
+        for _ in 0..rng.range(1, 9) {
+            if rng.chance(1, 3) {
+                text.extend(rng.pick(WIDE_SEQ).chars());
+            } else {
+                text.push(*rng.pick(WIDE));
+            }
+        }
+        let n = text.len();
+        let ch = random_chunks(&mut rng, n);
+        emit(&mut out, &text, &ch, "wide");
     }
     // random texts
     let (count, maxlen) = if a.thorough { (3000, 40) } else { (300, 18) };
